@@ -16,6 +16,7 @@ name = sys.argv[3] if len(sys.argv) > 3 else f"{pid}-{os.path.basename(os.path.d
 patch = os.path.join(src, "patch.diff")
 meta = json.load(open(os.path.join(src, "meta.json")))
 WT = f"/tmp/seedchk-{os.getpid()}"
+VDIR = os.environ.get("SEED_VERIF", "/verif")   # which copy of the verification tree runs the checks
 
 
 def sh(cmd, cwd=None, timeout=1800):
@@ -72,27 +73,39 @@ finally:
 
 confirmed = res.get("applies") and res.get("tests_pass_with_patch") and res.get("demo_without_patch_passes") and res.get("demo_with_patch_passes") is False
 res["confirmed"] = bool(confirmed)
+ON_REPO = os.environ.get("SEED_ON_REPO") == "1"   # apply to /repo itself (final confirmation pass) or to a scratch worktree
 if confirmed:
-    st = subprocess.run(["git", "-C", "/repo", "status", "--porcelain"], capture_output=True, text=True).stdout.strip()
-    assert st == "", "/repo is dirty: " + st
+    if ON_REPO:
+        st = subprocess.run(["git", "-C", "/repo", "status", "--porcelain"], capture_output=True, text=True).stdout.strip()
+        assert st == "", "/repo is dirty: " + st
+        target, env = "/repo", dict(os.environ)
+    else:
+        target = WT + "-run"
+        subprocess.run(["git", "-C", "/repo", "worktree", "add", "--detach", target, "HEAD"], check=True, capture_output=True)
+        env = dict(os.environ, VERIF_REPO=target)
     try:
-        subprocess.run(["git", "-C", "/repo", "apply", patch], check=True)
+        subprocess.run(["git", "-C", target, "apply", patch], check=True)
         runs = []
         for tier in ("quick", "thorough"):
             t0 = time.time()
-            p = subprocess.run(["./check", pid, tier], cwd="/verif", capture_output=True, text=True, timeout=7200)
+            p = subprocess.run(["./check", pid, tier], cwd=VDIR, capture_output=True, text=True, timeout=7200, env=env)
             lines = [l for l in p.stdout.split("\n") if l.startswith("VIOLATION") or l.startswith("KNOWN")]
-            runs.append({"tier": tier, "rc": p.returncode, "lines": lines, "stderr": p.stderr[-600:], "wall_s": round(time.time() - t0, 1)})
+            runs.append({"tier": tier, "rc": p.returncode, "lines": lines, "stderr": p.stderr[-600:], "wall_s": round(time.time() - t0, 1),
+                         "on": "/repo (git apply, undone afterwards)" if ON_REPO else "scratch worktree via VERIF_REPO"})
             if p.returncode != 0:
                 break
         res["checks"] = runs
         res["detected"] = any(r["rc"] != 0 for r in runs)
         res["detected_with_input"] = any(r["rc"] != 0 and not any("no-failing-input-found" in l for l in r["lines"]) for r in runs)
     finally:
-        subprocess.run(["git", "-C", "/repo", "checkout", "--", "."], check=True)
-        subprocess.run(["git", "-C", "/repo", "clean", "-fdq"], check=True)
-    # restore evidence of the unchanged tree
-    subprocess.run(["./check", pid, "quick"], cwd="/verif", capture_output=True, text=True, timeout=3600)
+        if ON_REPO:
+            subprocess.run(["git", "-C", "/repo", "checkout", "--", "."], check=True)
+            subprocess.run(["git", "-C", "/repo", "clean", "-fdq"], check=True)
+        else:
+            subprocess.run(["git", "-C", "/repo", "worktree", "remove", "--force", target], capture_output=True)
+            shutil.rmtree(target, ignore_errors=True)
+    # restore evidence and generated files of the unchanged tree
+    subprocess.run(["./check", pid, "quick"], cwd=VDIR, capture_output=True, text=True, timeout=3600)
     dst = os.path.join("/verif/seeded", name)
     os.makedirs(dst, exist_ok=True)
     shutil.copyfile(patch, os.path.join(dst, "patch.diff"))
